@@ -40,6 +40,11 @@ func (w *SimWriter) Write(p []byte) (int, error) {
 	if w.Failed {
 		return 0, ErrInjected
 	}
+	if w.Fault.Kind == "transient_err" && call == w.Fault.At {
+		// one failing Write; later Writes succeed again (a transient condition)
+		w.Fired = true
+		return 0, ErrInjected
+	}
 	switch w.Fault.Kind {
 	case "err_on_write":
 		if call == w.Fault.At {
@@ -168,7 +173,9 @@ func GenWriteFault(r *RNG, pct int, approxSize int) WriteFault {
 	if !r.Pct(pct) {
 		return WriteFault{}
 	}
-	switch r.Intn(4) {
+	switch r.Intn(5) {
+	case 4:
+		return WriteFault{Kind: "transient_err", At: r.Intn(3)}
 	case 0:
 		return WriteFault{Kind: "err_on_write", At: r.Intn(4)}
 	case 1:
